@@ -574,6 +574,45 @@ pub fn short_code_then_stored_at_window_end(zlib: Option<(u8, u8)>) -> Vec<GenSt
     out
 }
 
+/// A fixed-Huffman block of n8 eight-bit and n9 nine-bit literals (every bit alignment and, in the
+/// fast decode loop, every fill level of the bit buffer at the end-of-block code), directly followed
+/// by a stored block of 1-3 bytes whose header *and payload* may already sit in the bit buffer;
+/// that block is either the last one, or followed by a final fixed block long enough (18 bytes) to
+/// keep the fast loop enabled while the first block ends.
+pub fn literal_run_then_tiny_stored(zlib: Option<(u8, u8)>, thorough: bool) -> Vec<GenStream> {
+    let mut out = vec![];
+    let lim = if thorough { 24usize } else { 16 };
+    for n8 in 0..lim {
+        for n9 in 0..lim {
+            for slen in 1..=3usize {
+                for tail in 0..2 {
+                    let mut toks: Vec<Token> = vec![];
+                    for i in 0..n8.max(n9) {
+                        if i < n8 {
+                            toks.push(lit(0x41 + (i % 26) as u8));
+                        }
+                        if i < n9 {
+                            toks.push(lit(0x90 + (i % 100) as u8));
+                        }
+                    }
+                    let data: Vec<u8> = (0..slen).map(|i| 0x30 + i as u8).collect();
+                    let mut b = StreamBuilder::new(zlib);
+                    b.fixed(&toks, false);
+                    if tail == 0 {
+                        b.stored(&data, true);
+                    } else {
+                        b.stored(&data, false);
+                        let fin: Vec<Token> = (0..16).map(|i| lit(0xa0 + i as u8)).collect();
+                        b.fixed(&fin, true);
+                    }
+                    out.push(b.finish());
+                }
+            }
+        }
+    }
+    out
+}
+
 /// All valid zlib wrappers around one body.
 pub fn zlib_wrappers() -> Vec<GenStream> {
     let mut out = vec![];
@@ -629,5 +668,6 @@ pub fn grammar(zlib: Option<(u8, u8)>, thorough: bool) -> Vec<GenStream> {
     v.extend(short_code_then_stored(zlib));
     v.extend(bushy_deep_streams(zlib));
     v.extend(short_code_then_stored_at_window_end(zlib).into_iter().step_by(if thorough { 1 } else { 2 }));
+    v.extend(literal_run_then_tiny_stored(zlib, thorough));
     v
 }
